@@ -11,8 +11,11 @@
    (M) merge_rel: merge_field_sets respects the equivalence `orel` of raw field sets (any order, any multiplicity,
        members/fields compared up to order) — the py_eq shortcuts, the `first` flag and the member orders of
        union1 (members field ++ members fo) are all absorbed (py_teq, join1, fold_join, J_absorb, J_cong).
-   (e') generate_perm_dup_cong: the C07 theorem, from the congruence of `optimize` for `frel` (Section hypothesis
-       optimize_cong, statement (d)).  See the end of the file for what is missing for (d). *)
+   (d) optimize_cong_thm: optimize respects the equivalence of fields `frel` (Optional flag equal, contents equal as
+       sets of members up to the equivalence), for any two fuels; by induction on a depth measure (P3_all), from
+       finish_ceq, regroup_cong, merge_rel, the homogeneous-union lemmas and step_obj / step_list / step_dict.
+   (e) generate_perm_dup: the C07 theorem, exactly as stated in the brief, with NO side condition
+       (generate_perm_dup_cong is the same theorem with (d) as an explicit premise; generate_perm: permutations). *)
 From Coq Require Import List Bool Arith NArith ZArith Lia Permutation.
 From J2M.Model Require Import Base Union Merge Optimize Detect Canon.
 From J2M.Sem Require Import NF.
@@ -386,7 +389,9 @@ Section Cong.
     intros GX GY [LXY LYX] HO HL HD FX FY y Hy.
     assert (NOX : forall x, In x X -> is_opt x = false) by (intros x Hx; apply (R_not_opt_ptr _ (proj1 (proj1 (G_union_member X x GX Hx))))).
     assert (NOY : forall x, In x Y -> is_opt x = false) by (intros x Hx; apply (R_not_opt_ptr _ (proj1 (proj1 (G_union_member Y x GY Hx))))).
-    rewrite (regroup_noopt registry replaces peq X NOX) in FX. rewrite (regroup_noopt registry replaces peq Y NOY) in FY.
+    assert (NUX : forall x, In x X -> is_union x = false) by (intros x Hx; apply (proj1 (proj2 (G_union_member X x GX Hx)))).
+    assert (NUY : forall x, In x Y -> is_union x = false) by (intros x Hx; apply (proj1 (proj2 (G_union_member Y x GY Hx)))).
+    rewrite (regroup_noopt registry replaces peq X NOX NUX) in FX. rewrite (regroup_noopt registry replaces peq Y NOY NUY) in FY.
     assert (NDX : NoDup X) by (destruct GX as [RX _]; simpl in RX; apply andb_true_iff in RX; apply (raw_union_ok_parts X (proj1 RX))).
     assert (NDY : NoDup Y) by (destruct GY as [RY _]; simpl in RY; apply andb_true_iff in RY; apply (raw_union_ok_parts Y (proj1 RY))).
     assert (SO : seteq (oth_of registry X) (oth_of registry Y)).
@@ -433,7 +438,9 @@ Section Cong.
     intros GX GY [LXY LYX].
     assert (NOX : forall x, In x X -> is_opt x = false) by (intros x Hx; apply (R_not_opt_ptr _ (proj1 (proj1 (G_union_member X x GX Hx))))).
     assert (NOY : forall x, In x Y -> is_opt x = false) by (intros x Hx; apply (R_not_opt_ptr _ (proj1 (proj1 (G_union_member Y x GY Hx))))).
-    rewrite (regroup_noopt registry replaces peq X NOX), (regroup_noopt registry replaces peq Y NOY).
+    assert (NUX : forall x, In x X -> is_union x = false) by (intros x Hx; apply (proj1 (proj2 (G_union_member X x GX Hx)))).
+    assert (NUY : forall x, In x Y -> is_union x = false) by (intros x Hx; apply (proj1 (proj2 (G_union_member Y x GY Hx)))).
+    rewrite (regroup_noopt registry replaces peq X NOX NUX), (regroup_noopt registry replaces peq Y NOY NUY).
     assert (NDX : NoDup X) by (destruct GX as [RX _]; simpl in RX; apply andb_true_iff in RX; apply (raw_union_ok_parts X (proj1 RX))).
     assert (NDY : NoDup Y) by (destruct GY as [RY _]; simpl in RY; apply andb_true_iff in RY; apply (raw_union_ok_parts Y (proj1 RY))).
     assert (SO : seteq (oth_of registry X) (oth_of registry Y)).
@@ -541,6 +548,407 @@ Section Cong.
     - intros g Hg. destruct (objs_family Y X B g Hg) as [f [Hf O]]. exists f. split; [exact Hf | apply orel_sym; exact O].
   Qed.
 End Cong.
+
+(* ------------------------------------------------------------------ *)
+(* E.1d the induction: optimize respects teq / frel                       *)
+Definition norm (m : ty) : ty := match m with TLit true _ => TStr | _ => m end.
+
+Section Ind.
+  Variable registry : list pseudo.
+  Variable replaces : list (pseudo * pseudo).
+  Variable peq : N -> N -> bool.
+  Notation optimize := (optimize registry replaces peq).
+  Notation regroup := (regroup registry replaces peq).
+
+  Lemma optimize_det f f' t u u' : optimize f t = Some u -> optimize f' t = Some u' -> u = u'.
+  Proof.
+    intros A B. pose proof (optimize_mono registry replaces peq f (Nat.max f f') t u (Nat.le_max_l _ _) A) as A'.
+    pose proof (optimize_mono registry replaces peq f' (Nat.max f f') t u' (Nat.le_max_r _ _) B) as B'. congruence.
+  Qed.
+
+  Lemma norm_props m : G m -> is_union m = false ->
+    nmem m = [norm m] /\ G (norm m) /\ is_union (norm m) = false /\ (forall l, norm m <> TLit true l) /\
+    depth (norm m) = depth m /\ (forall f u, optimize f m = Some u -> optimize f (norm m) = Some u).
+  Proof.
+    intros Gm Um.
+    assert (C : (exists l, m = TLit true l) \/ (forall l, m <> TLit true l)).
+    { destruct m; try (right; intros l E; discriminate E). destruct overflow; [left; eexists; reflexivity | right; intros l E; discriminate E]. }
+    destruct C as [[l ->]|C].
+    - destruct Gm as [Rm _]. simpl in Rm. destruct l; [|discriminate]. cbn [norm].
+      split; [reflexivity|]. split; [split; reflexivity|]. split; [reflexivity|]. split; [intros l E; discriminate E|].
+      split; [reflexivity|]. intros f u H. destruct f; [discriminate|]. exact H.
+    - assert (E : norm m = m) by (destruct m; try reflexivity; destruct overflow; [exfalso; apply (C ls); reflexivity | reflexivity]).
+      rewrite E. split; [apply nmem_member; assumption|]. split; [exact Gm|]. split; [exact Um|]. split; [exact C|].
+      split; [reflexivity|]. intros f u H; exact H.
+  Qed.
+
+  Lemma pseudo_eqb_refl' p : pseudo_eqb p p = true. Proof. destruct p; reflexivity. Qed.
+  Lemma regroup_single_atomic m : atomic m -> regroup [m] = [m].
+  Proof.
+    intros [A1 [A2 [A3 [A4 [A5 A6]]]]]. destruct m; try discriminate; try reflexivity.
+    unfold Optimize.regroup. cbn [flat_map members_deep app fold_left split_step in_reg]. destruct (pmem p registry) eqn:E; [|reflexivity].
+    cbn. rewrite pseudo_eqb_refl'. reflexivity.
+  Qed.
+  Lemma optimize_single_atomic f m u : atomic m -> optimize f (TUnion [m]) = Some u -> u = m.
+  Proof.
+    intros A H. destruct f as [|n]; [discriminate|]. rewrite NormalForm.optimize_S, (regroup_single_atomic m A) in H.
+    cbn [opt_list] in H. destruct (optimize n m) as [t|] eqn:E; [|discriminate].
+    apply (optimize_atomic' registry replaces peq n m t A) in E. subst t. simpl in H. inversion H. reflexivity.
+  Qed.
+
+  (* homogeneous unions: regroup returns the single rebuilt member *)
+  Lemma objs_of_nil Y : (forall y, In y Y -> is_obj y = false) -> objs_of Y = [].
+  Proof.
+    induction Y as [|y r IH]; intros H; [reflexivity|]. unfold objs_of in *. cbn [flat_map].
+    rewrite IH by (intros z Hz; apply H; right; exact Hz). specialize (H y (or_introl eq_refl)). destruct y; try reflexivity. discriminate.
+  Qed.
+  Lemma lists_of_nil Y : (forall y, In y Y -> is_list y = false) -> lists_of Y = [].
+  Proof.
+    induction Y as [|y r IH]; intros H; [reflexivity|]. unfold lists_of in *. cbn [flat_map].
+    rewrite IH by (intros z Hz; apply H; right; exact Hz). specialize (H y (or_introl eq_refl)). destruct y; try reflexivity. discriminate.
+  Qed.
+  Lemma dicts_of_nil Y : (forall y, In y Y -> is_dict y = false) -> dicts_of Y = [].
+  Proof.
+    induction Y as [|y r IH]; intros H; [reflexivity|]. unfold dicts_of in *. cbn [flat_map].
+    rewrite IH by (intros z Hz; apply H; right; exact Hz). specialize (H y (or_introl eq_refl)). destruct y; try reflexivity. discriminate.
+  Qed.
+  Lemma regroup_cat Y : (forall y, In y Y -> is_list y = true \/ is_dict y = true \/ is_obj y = true) ->
+    regroup Y = (objp peq Y ++ listp Y) ++ dictp Y.
+  Proof.
+    intros H. rewrite regroup_noopt.
+    2:{ intros y Hy. destruct (H y Hy) as [A|[A|A]]; destruct y; try discriminate; reflexivity. }
+    2:{ intros y Hy. destruct (H y Hy) as [A|[A|A]]; destruct y; try discriminate; reflexivity. }
+    assert (E1 : filter (is_other registry) Y = []).
+    { apply filter_none. intros y Hy. unfold is_other. destruct (H y Hy) as [A|[A|A]]; rewrite A; simpl; rewrite ?andb_false_r; reflexivity. }
+    assert (E2 : filter (in_reg registry) Y = []).
+    { apply filter_none. intros y Hy. destruct (H y Hy) as [A|[A|A]]; destruct y; try discriminate; reflexivity. }
+    unfold oth_of. rewrite E1, E2. cbn. rewrite app_nil_r. reflexivity.
+  Qed.
+  Lemma regroup_lists Y : Y <> [] -> (forall y, In y Y -> is_list y = true) -> regroup Y = [TList (dunion (lists_of Y))].
+  Proof.
+    intros NE H. rewrite regroup_cat by (intros y Hy; left; apply H; exact Hy).
+    unfold objp, dictp, listp.
+    rewrite objs_of_nil by (intros y Hy; specialize (H y Hy); destruct y; try discriminate; reflexivity).
+    rewrite dicts_of_nil by (intros y Hy; specialize (H y Hy); destruct y; try discriminate; reflexivity).
+    destruct Y as [|y r]; [congruence|]. specialize (H y (or_introl eq_refl)). destruct y; try discriminate. reflexivity.
+  Qed.
+  Lemma regroup_dicts Y : Y <> [] -> (forall y, In y Y -> is_dict y = true) -> regroup Y = [TDict (dunion (dicts_of Y))].
+  Proof.
+    intros NE H. rewrite regroup_cat by (intros y Hy; right; left; apply H; exact Hy).
+    unfold objp, dictp, listp.
+    rewrite objs_of_nil by (intros y Hy; specialize (H y Hy); destruct y; try discriminate; reflexivity).
+    rewrite lists_of_nil by (intros y Hy; specialize (H y Hy); destruct y; try discriminate; reflexivity).
+    destruct Y as [|y r]; [congruence|]. specialize (H y (or_introl eq_refl)). destruct y; try discriminate. reflexivity.
+  Qed.
+  Lemma regroup_objs Y : Y <> [] -> (forall y, In y Y -> is_obj y = true) -> regroup Y = [TObj (merge_field_sets peq (objs_of Y))].
+  Proof.
+    intros NE H. rewrite regroup_cat by (intros y Hy; right; right; apply H; exact Hy).
+    unfold objp, dictp, listp.
+    rewrite dicts_of_nil by (intros y Hy; specialize (H y Hy); destruct y; try discriminate; reflexivity).
+    rewrite lists_of_nil by (intros y Hy; specialize (H y Hy); destruct y; try discriminate; reflexivity).
+    destruct Y as [|y r]; [congruence|]. specialize (H y (or_introl eq_refl)). destruct y; try discriminate. reflexivity.
+  Qed.
+  Lemma optimize_single_regroup f Y z u : regroup Y = [z] -> optimize f (TUnion Y) = Some u ->
+    exists n, f = Datatypes.S n /\ optimize n z = Some u.
+  Proof.
+    intros E H. destruct f as [|n]; [discriminate|]. exists n. split; [reflexivity|].
+    rewrite NormalForm.optimize_S, E in H. cbn [opt_list] in H. destruct (optimize n z) as [t|]; [|discriminate].
+    simpl in H. exact H.
+  Qed.
+
+  (* facts on the rebuilt members of a raw union *)
+  Lemma objs_good Z : G (TUnion Z) -> good_sets_G (objs_of Z).
+  Proof.
+    intros GZ s Hs. apply In_objs_of in Hs. destruct (G_union_member Z _ GZ Hs) as [Gs _].
+    destruct (G_obj s Gs) as [N F]. split; [exact N|]. intros [k v] Hkv. apply (F k v Hkv).
+  Qed.
+  Lemma merged_facts Z d : G (TUnion Z) -> depth (TUnion Z) < Datatypes.S d ->
+    NoDup (map fst (merge_field_sets peq (objs_of Z))) /\
+    forall k v, lookup k (merge_field_sets peq (objs_of Z)) = Some v -> RF1 v = true /\ S v = true /\ depth v < d.
+  Proof.
+    intros GZ DZ. pose proof (objs_good Z GZ) as GO.
+    assert (RS : forall m, In m (objs_of Z) -> FS R m /\ FS S m).
+    { intros m Hm. destruct (GO m Hm) as [_ B]. split; intros kv Hkv; apply (B kv Hkv). }
+    destruct (merge_fold_S peq (objs_of Z) (true, []) ltac:(repeat split; intros kv []) RS) as [A [B C]].
+    split; [apply keys_nodup_NoDup; exact C|]. intros k v L.
+    pose proof (Sound.lookup_In k v _ L) as Hi. split; [apply (A _ Hi)|]. split; [apply (B _ Hi)|].
+    destruct (objs_of Z) as [|s0 r0] eqn:E; [discriminate L|]. rewrite <- E in *.
+    assert (H0 : In (TObj s0) Z) by (apply In_objs_of; rewrite E; left; reflexivity).
+    pose proof (depth_member Z _ H0) as D0. pose proof (depth_obj_pos s0) as P0.
+    assert (LE : depth v <= pred d).
+    { apply (merge_depth peq (pred d) (objs_of Z) k v (good_sets_G_R _ GO)); [|exact L].
+      intros s [k' v'] Hs Hkv. apply In_objs_of in Hs. pose proof (depth_member Z _ Hs) as D1.
+      pose proof (depth_field s k' v' Hkv) as D2. simpl snd. lia. }
+    lia.
+  Qed.
+  Lemma dunion_facts Z ls d : G (TUnion Z) -> depth (TUnion Z) < Datatypes.S d -> ls <> [] ->
+    (forall x, In x ls -> In (TList x) Z \/ In (TDict x) Z) -> G (dunion ls) /\ depth (dunion ls) < d.
+  Proof.
+    intros GZ DZ NE H.
+    assert (K : forall x, In x ls -> G x /\ Datatypes.S (depth x) <= depth (TUnion Z)).
+    { intros x Hx. destruct (H x Hx) as [Hi|Hi]; destruct (G_union_member Z _ GZ Hi) as [Gm _]; pose proof (depth_member Z _ Hi) as D;
+        [split; [apply G_list; exact Gm | exact D] | split; [apply G_dict; exact Gm | exact D]]. }
+    split.
+    - split; [apply dunion_R; [exact NE | intros x Hx; apply (K x Hx)] | apply dunion_S; intros x Hx; apply (K x Hx)].
+    - destruct ls as [|x0 r0]; [congruence|]. destruct (K x0 (or_introl eq_refl)) as [_ D0].
+      assert (LE : depth (dunion (x0 :: r0)) <= pred d).
+      { apply depth_dunion. intros x Hx. destruct (K x Hx) as [_ D]. lia. }
+      lia.
+  Qed.
+  Lemma teq_dunion_single x : teq x (dunion [x]).
+  Proof.
+    unfold teq. apply leq_sym. eapply leq_trans; [apply seteq_leq, nmem_dunion|]. cbn [map concat]. rewrite app_nil_r, <- nmem_flat. apply leq_refl.
+  Qed.
+  Lemma strip_nonopt a : is_opt a = false -> strip a = a.
+  Proof. destruct a; try reflexivity. discriminate. Qed.
+  Lemma orel_refl0 s : orel s s.
+  Proof. intros k. destruct (lookup k s) as [a|]; [right; exists a, a; repeat split; apply subm_refl | left; auto]. Qed.
+  Lemma orel_orelf F F' : (forall k v, lookup k F = Some v -> G v) -> (forall k v, lookup k F' = Some v -> G v) ->
+    orel F F' -> orelf F F'.
+  Proof.
+    intros H1 H2 O k. destruct (O k) as [A|[a [b [La [Lb T]]]]]; [left; exact A|]. right. exists a, b. split; [exact La|]. split; [exact Lb|].
+    pose proof (R_not_opt_ptr _ (proj1 (H1 k a La))) as [Oa _]. pose proof (R_not_opt_ptr _ (proj1 (H2 k b Lb))) as [Ob _].
+    split; [congruence|]. rewrite (strip_nonopt a Oa), (strip_nonopt b Ob). exact T.
+  Qed.
+
+  Definition P3 (d : nat) : Prop := forall a b, depth a < d -> depth b < d -> G a -> G b -> teq a b ->
+    forall f f' u u', optimize f a = Some u -> optimize f' b = Some u' -> canon u = canon u'.
+
+  Lemma canon_wrap_opt w : canon (wrap_opt w) = wrap_opt (canon w).
+  Proof. destruct w; reflexivity. Qed.
+  Lemma optimize_opt f x u : optimize f (TOpt x) = Some u -> exists n w, f = Datatypes.S n /\ optimize n x = Some w /\ u = wrap_opt w.
+  Proof.
+    destruct f as [|n]; [discriminate|]. rewrite NormalForm.optimize_S. destruct (optimize n x) as [w|] eqn:E; [|discriminate].
+    intros H. exists n, w. split; [reflexivity|]. split; [exact E|]. destruct w; inversion H; reflexivity.
+  Qed.
+
+  Section Step.
+    Variable d : nat.
+    Hypothesis IH : P3 d.
+
+    Lemma field_cong v v' : RF1 v = true -> S v = true -> RF1 v' = true -> S v' = true -> depth v < d -> depth v' < d ->
+      frel v v' -> forall f f' w w', optimize f v = Some w -> optimize f' v' = Some w' -> canon w = canon w'.
+    Proof.
+      intros R1 S1 R2 S2 D1 D2 [EO T] f f' w w' O1 O2.
+      destruct v; try (destruct v'; try discriminate EO; cbn [strip] in T; apply (IH _ _ D1 D2 (conj R1 S1) (conj R2 S2) T f f' w w' O1 O2)).
+      destruct v'; try discriminate EO. cbn [strip] in T. simpl in R1, S1, R2, S2, D1, D2.
+      apply optimize_opt in O1, O2. destruct O1 as [n [x [-> [O1 ->]]]]. destruct O2 as [n' [x' [-> [O2 ->]]]].
+      rewrite !canon_wrap_opt. f_equal. apply (IH _ _ D1 D2 (conj R1 S1) (conj R2 S2) T n n' x x' O1 O2).
+    Qed.
+
+    Lemma step_obj F F' :
+      NoDup (map fst F) -> NoDup (map fst F') ->
+      (forall k v, lookup k F = Some v -> RF1 v = true /\ S v = true /\ depth v < d) ->
+      (forall k v, lookup k F' = Some v -> RF1 v = true /\ S v = true /\ depth v < d) ->
+      orelf F F' -> forall f f' u u', optimize f (TObj F) = Some u -> optimize f' (TObj F') = Some u' -> canon u = canon u'.
+    Proof.
+      intros N1 N2 H1 H2 REL f f' u u' E1 E2.
+      destruct f as [|n]; [discriminate|]. destruct f' as [|n']; [discriminate|].
+      rewrite NormalForm.optimize_S in E1, E2.
+      destruct (opt_fields (optimize n) F) as [g1|] eqn:O1; [|discriminate].
+      destruct (opt_fields (optimize n') F') as [g2|] eqn:O2; [|discriminate].
+      inversion E1; subst u. inversion E2; subst u'. clear E1 E2.
+      destruct (opt_fields_lookup _ _ _ O1) as [K1 L1]. destruct (opt_fields_lookup _ _ _ O2) as [K2 L2].
+      apply canon_obj_ext; [rewrite K1; exact N1 | rewrite K2; exact N2|].
+      intros k. specialize (L1 k). specialize (L2 k).
+      destruct (REL k) as [[R1 R2]|[v [v' [R1 [R2 FR]]]]].
+      - rewrite R1 in L1. rewrite R2 in L2. rewrite L1, L2. reflexivity.
+      - rewrite R1 in L1. rewrite R2 in L2. destruct L1 as [w [Lw Ow]]. destruct L2 as [w' [Lw' Ow']].
+        rewrite Lw, Lw'. cbn [option_map]. f_equal.
+        destruct (H1 k v R1) as [A1 [A2 A3]]. destruct (H2 k v' R2) as [B1 [B2 B3]].
+        apply (field_cong v v' A1 A2 B1 B2 A3 B3 FR n n' w w' Ow Ow').
+    Qed.
+
+    Lemma step_list x y : G x -> G y -> depth x < d -> depth y < d -> teq x y ->
+      forall f f' u u', optimize f (TList x) = Some u -> optimize f' (TList y) = Some u' -> canon u = canon u'.
+    Proof.
+      intros Gx Gy Dx Dy T f f' u u' E1 E2.
+      destruct f as [|n]; [discriminate|]. destruct f' as [|n']; [discriminate|]. rewrite NormalForm.optimize_S in E1, E2.
+      destruct (optimize n x) as [w|] eqn:O1; [|discriminate]. destruct (optimize n' y) as [w'|] eqn:O2; [|discriminate].
+      inversion E1; inversion E2; subst. simpl. f_equal. apply (IH x y Dx Dy Gx Gy T n n' w w' O1 O2).
+    Qed.
+    Lemma step_dict x y : G x -> G y -> depth x < d -> depth y < d -> teq x y ->
+      forall f f' u u', optimize f (TDict x) = Some u -> optimize f' (TDict y) = Some u' -> canon u = canon u'.
+    Proof.
+      intros Gx Gy Dx Dy T f f' u u' E1 E2.
+      destruct f as [|n]; [discriminate|]. destruct f' as [|n']; [discriminate|]. rewrite NormalForm.optimize_S in E1, E2.
+      destruct (optimize n x) as [w|] eqn:O1; [|discriminate]. destruct (optimize n' y) as [w'|] eqn:O2; [|discriminate].
+      inversion E1; inversion E2; subst. simpl. f_equal. apply (IH x y Dx Dy Gx Gy T n n' w w' O1 O2).
+    Qed.
+
+    Lemma obj_fields_facts F : G (TObj F) -> depth (TObj F) < Datatypes.S d ->
+      NoDup (map fst F) /\ (forall k v, lookup k F = Some v -> G v /\ depth v < d).
+    Proof.
+      intros GF DF. destruct (G_obj F GF) as [N Fv]. split; [apply keys_nodup_NoDup; exact N|].
+      intros k v L. apply Sound.lookup_In in L. split; [apply (Fv k v L)|]. pose proof (depth_field F k v L). lia.
+    Qed.
+    Lemma G_fields_RF1 F : (forall k v, lookup k F = Some v -> G v /\ depth v < d) ->
+      forall k v, lookup k F = Some v -> RF1 v = true /\ S v = true /\ depth v < d.
+    Proof. intros H k v L. destruct (H k v L) as [[A B] C]. split; [apply R_RF1; exact A|]. split; assumption. Qed.
+    Lemma meq_obj_orel F F' : meq (TObj F) (TObj F') -> orel F F'.
+    Proof.
+      intros M. apply meq_inv in M. destruct M as [E|[[a [b [E1 _]]]|[[a [b [E1 _]]]|[F1 [F2 [E1 [E2 O]]]]]]]; try discriminate E1.
+      - inversion E; subst. apply orel_refl0.
+      - inversion E1; inversion E2; subst. exact O.
+    Qed.
+
+    Lemma step_MM m m' : G m -> G m' -> depth m < Datatypes.S d -> depth m' < Datatypes.S d -> meq m m' ->
+      forall f f' u u', optimize f m = Some u -> optimize f' m' = Some u' -> canon u = canon u'.
+    Proof.
+      intros Gm Gm' Dm Dm' M f f' u u' O1 O2. apply meq_inv in M.
+      destruct M as [<-|[[x [y [-> [-> T]]]]|[[x [y [-> [-> T]]]]|[F [F' [-> [-> O]]]]]]].
+      - rewrite (optimize_det _ _ _ _ _ O1 O2). reflexivity.
+      - simpl in Dm, Dm'. apply (step_list x y (G_list _ Gm) (G_list _ Gm') ltac:(lia) ltac:(lia) T f f' u u' O1 O2).
+      - simpl in Dm, Dm'. apply (step_dict x y (G_dict _ Gm) (G_dict _ Gm') ltac:(lia) ltac:(lia) T f f' u u' O1 O2).
+      - destruct (obj_fields_facts F Gm Dm) as [N1 H1]. destruct (obj_fields_facts F' Gm' Dm') as [N2 H2].
+        apply (step_obj F F' N1 N2 (G_fields_RF1 F H1) (G_fields_RF1 F' H2)) with (f := f) (f' := f'); try assumption.
+        apply orel_orelf; [intros k v L; apply (H1 k v L) | intros k v L; apply (H2 k v L) | exact O].
+    Qed.
+
+    Lemma step_MU m Y : G m -> is_union m = false -> (forall l, m <> TLit true l) -> G (TUnion Y) ->
+      depth m < Datatypes.S d -> depth (TUnion Y) < Datatypes.S d -> leq [m] Y ->
+      forall f f' u u', optimize f m = Some u -> optimize f' (TUnion Y) = Some u' -> canon u = canon u'.
+    Proof.
+      intros Gm Um Lm GY Dm DY [A B] f f' u u' O1 O2.
+      assert (HY : forall y, In y Y -> meq m y).
+      { intros y Hy. destruct (B y Hy) as [m0 [[<-|[]] D]]. apply meq_sym. exact D. }
+      assert (NE : Y <> []).
+      { destruct (A m (or_introl eq_refl)) as [y [Hy _]]. intros E. rewrite E in Hy. destruct Hy. }
+      assert (NDY : NoDup Y) by (destruct GY as [RY _]; simpl in RY; apply andb_true_iff in RY; apply (raw_union_ok_parts Y (proj1 RY))).
+      assert (AT : atomic m -> canon u = canon u').
+      { intros AT. pose proof AT as [_ [_ [A3 [A4 [A5 _]]]]].
+        assert (EY : forall y, In y Y -> y = m) by (intros y Hy; symmetry; apply (meq_atom m y (HY y Hy) A3 A4 A5)).
+        assert (Y = [m]) as ->.
+        { destruct Y as [|y0 r]; [congruence|]. rewrite (EY y0 (or_introl eq_refl)) in *. destruct r as [|y1 r']; [reflexivity|].
+          exfalso. inversion NDY as [|? ? Hn _]; subst. apply Hn. left. apply EY. right. left. reflexivity. }
+        apply (optimize_single_atomic f' m u' AT) in O2. apply (optimize_atomic' registry replaces peq f m u AT) in O1. subst. reflexivity. }
+      destruct m; try discriminate Um;
+        try (apply AT; repeat split; try reflexivity; congruence).
+      - (* TLit *) apply AT. split; [reflexivity|]. split; [reflexivity|]. split; [reflexivity|]. split; [reflexivity|].
+        split; [reflexivity|]. intros o' l' E'. inversion E'; subst o' l'. destruct Gm as [Rm _].
+        destruct overflow; [exfalso; apply (Lm ls); reflexivity|]. split; [reflexivity|]. simpl in Rm. destruct ls; discriminate.
+      - destruct Gm as [Rm _]. discriminate Rm.
+      - (* TList *)
+        assert (HL : forall y, In y Y -> is_list y = true).
+        { intros y Hy. pose proof (HY y Hy) as M. apply meq_inv in M.
+          destruct M as [<-|[[a [b [_ [-> _]]]]|[[a [b [E1 _]]]|[a [b [E1 _]]]]]]; try discriminate E1; reflexivity. }
+        destruct (optimize_single_regroup f' Y _ u' (regroup_lists Y NE HL) O2) as [n' [-> O2']].
+        assert (NEL : lists_of Y <> []).
+        { destruct Y as [|y0 r]; [congruence|]. pose proof (HL y0 (or_introl eq_refl)) as L0. destruct y0; try discriminate L0.
+          intros E. assert (In y0 (lists_of (TList y0 :: r))) as Hi by (apply In_lists_of'; left; reflexivity). rewrite E in Hi. destruct Hi. }
+        destruct (dunion_facts Y (lists_of Y) d GY DY NEL (fun x Hx => or_introl (In_lists_of x Y Hx))) as [Gd Dd].
+        simpl in Dm.
+        assert (B' : forall y, In y (lists_of Y) -> teq m y).
+        { intros y Hy. apply In_lists_of in Hy. pose proof (HY _ Hy) as M. apply meq_inv in M.
+          destruct M as [E|[[a [b [E1 [E2 T]]]]|[[a [b [E1 _]]]|[a [b [E1 _]]]]]]; try discriminate E1.
+          - inversion E; subst. apply teq_refl.
+          - inversion E1; inversion E2; subst. exact T. }
+        apply (step_list m (dunion (lists_of Y)) (G_list _ Gm) Gd ltac:(lia) Dd) with (f := f) (f' := n'); try assumption.
+        eapply teq_trans; [apply teq_dunion_single|]. apply dunion_family.
+        + intros x0 [<-|[]]. destruct (lists_of Y) as [|y1 r1] eqn:E; [congruence|]. exists y1. split; [left; reflexivity|].
+          apply B'. left. reflexivity.
+        + intros y Hy. exists m. split; [left; reflexivity | apply B'; exact Hy].
+      - (* TDict *)
+        assert (HL : forall y, In y Y -> is_dict y = true).
+        { intros y Hy. pose proof (HY y Hy) as M. apply meq_inv in M.
+          destruct M as [<-|[[a [b [E1 _]]]|[[a [b [_ [-> _]]]]|[a [b [E1 _]]]]]]; try discriminate E1; reflexivity. }
+        destruct (optimize_single_regroup f' Y _ u' (regroup_dicts Y NE HL) O2) as [n' [-> O2']].
+        assert (NEL : dicts_of Y <> []).
+        { destruct Y as [|y0 r]; [congruence|]. pose proof (HL y0 (or_introl eq_refl)) as L0. destruct y0; try discriminate L0.
+          intros E. assert (In y0 (dicts_of (TDict y0 :: r))) as Hi by (apply In_dicts_of'; left; reflexivity). rewrite E in Hi. destruct Hi. }
+        destruct (dunion_facts Y (dicts_of Y) d GY DY NEL (fun x Hx => or_intror (In_dicts_of x Y Hx))) as [Gd Dd].
+        simpl in Dm.
+        assert (B' : forall y, In y (dicts_of Y) -> teq m y).
+        { intros y Hy. apply In_dicts_of in Hy. pose proof (HY _ Hy) as M. apply meq_inv in M.
+          destruct M as [E|[[a [b [E1 _]]]|[[a [b [E1 [E2 T]]]]|[a [b [E1 _]]]]]]; try discriminate E1.
+          - inversion E; subst. apply teq_refl.
+          - inversion E1; inversion E2; subst. exact T. }
+        apply (step_dict m (dunion (dicts_of Y)) (G_dict _ Gm) Gd ltac:(lia) Dd) with (f := f) (f' := n'); try assumption.
+        eapply teq_trans; [apply teq_dunion_single|]. apply dunion_family.
+        + intros x0 [<-|[]]. destruct (dicts_of Y) as [|y1 r1] eqn:E; [congruence|]. exists y1. split; [left; reflexivity|].
+          apply B'. left. reflexivity.
+        + intros y Hy. exists m. split; [left; reflexivity | apply B'; exact Hy].
+      - (* TObj *)
+        assert (HL : forall y, In y Y -> is_obj y = true).
+        { intros y Hy. pose proof (HY y Hy) as M. apply meq_inv in M.
+          destruct M as [<-|[[a [b [E1 _]]]|[[a [b [E1 _]]]|[a [b [_ [-> _]]]]]]]; try discriminate E1; reflexivity. }
+        destruct (optimize_single_regroup f' Y _ u' (regroup_objs Y NE HL) O2) as [n' [-> O2']].
+        destruct (merged_facts Y d GY DY) as [N2 H2]. destruct (obj_fields_facts fs Gm Dm) as [N1 H1].
+        destruct (G_obj fs Gm) as [KN Fv].
+        assert (REL : orelf fs (merge_field_sets peq (objs_of Y))).
+        { rewrite <- (merge_single peq fs KN) at 1. apply merge_rel.
+          - intros s [<-|[]]. split; [exact KN|]. intros [k v] Hkv. apply (Fv k v Hkv).
+          - apply objs_good. exact GY.
+          - split.
+            + intros s [<-|[]]. destruct Y as [|y0 r]; [congruence|]. pose proof (HL y0 (or_introl eq_refl)) as L0.
+              destruct y0; try discriminate L0. exists fs0. split; [apply In_objs_of'; left; reflexivity|].
+              apply meq_obj_orel. apply HY. left. reflexivity.
+            + intros g Hg. exists fs. split; [left; reflexivity|]. apply meq_obj_orel. apply HY. apply In_objs_of. exact Hg. }
+        apply (step_obj fs _ N1 N2 (G_fields_RF1 fs H1) H2 REL f n' u u' O1 O2').
+    Qed.
+
+    Lemma step_UU X Y : G (TUnion X) -> G (TUnion Y) -> depth (TUnion X) < Datatypes.S d -> depth (TUnion Y) < Datatypes.S d ->
+      leq X Y -> forall f f' u u', optimize f (TUnion X) = Some u -> optimize f' (TUnion Y) = Some u' -> canon u = canon u'.
+    Proof.
+      intros GX GY DX DY L. pose proof L as [LXY LYX]. apply (regroup_cong registry replaces peq X Y GX GY L).
+      - intros n n' u u' O1 O2. destruct (merged_facts X d GX DX) as [N1 H1]. destruct (merged_facts Y d GY DY) as [N2 H2].
+        apply (step_obj _ _ N1 N2 H1 H2 (regroup_objs_rel peq X Y GX GY L) n n' u u' O1 O2).
+      - intros n n' u u' O1 O2. destruct (lists_of X) as [|x0 r0] eqn:EX.
+        + assert (lists_of Y = []) as EY.
+          { destruct (lists_of Y) as [|y0 r1] eqn:EY; [reflexivity|]. exfalso. apply (lists_nonempty Y X LYX); [rewrite EY; discriminate | exact EX]. }
+          rewrite EY in O2. rewrite (optimize_det _ _ _ _ _ O1 O2). reflexivity.
+        + rewrite <- EX in *. assert (NX : lists_of X <> []) by (rewrite EX; discriminate).
+          pose proof (lists_nonempty X Y LXY NX) as NY.
+          destruct (dunion_facts X (lists_of X) d GX DX NX (fun x Hx => or_introl (In_lists_of x X Hx))) as [G1 D1].
+          destruct (dunion_facts Y (lists_of Y) d GY DY NY (fun x Hx => or_introl (In_lists_of x Y Hx))) as [G2 D2].
+          apply (step_list _ _ G1 G2 D1 D2 (regroup_lists_teq X Y L) n n' u u' O1 O2).
+      - intros n n' u u' O1 O2. destruct (dicts_of X) as [|x0 r0] eqn:EX.
+        + assert (dicts_of Y = []) as EY.
+          { destruct (dicts_of Y) as [|y0 r1] eqn:EY; [reflexivity|]. exfalso. apply (dicts_nonempty Y X LYX); [rewrite EY; discriminate | exact EX]. }
+          rewrite EY in O2. rewrite (optimize_det _ _ _ _ _ O1 O2). reflexivity.
+        + rewrite <- EX in *. assert (NX : dicts_of X <> []) by (rewrite EX; discriminate).
+          pose proof (dicts_nonempty X Y LXY NX) as NY.
+          destruct (dunion_facts X (dicts_of X) d GX DX NX (fun x Hx => or_intror (In_dicts_of x X Hx))) as [G1 D1].
+          destruct (dunion_facts Y (dicts_of Y) d GY DY NY (fun x Hx => or_intror (In_dicts_of x Y Hx))) as [G2 D2].
+          apply (step_dict _ _ G1 G2 D1 D2 (regroup_dicts_teq X Y L) n n' u u' O1 O2).
+    Qed.
+
+    Theorem P3_step : P3 (Datatypes.S d).
+    Proof.
+      intros a b Da Db Ga Gb T f f' u u' O1 O2. unfold teq in T.
+      destruct (is_union a) eqn:Ua; destruct (is_union b) eqn:Ub.
+      - destruct a; try discriminate Ua. destruct b; try discriminate Ub.
+        apply (step_UU ts ts0 Ga Gb Da Db) with (f := f) (f' := f'); try assumption.
+        eapply leq_trans; [apply leq_sym, seteq_leq, nmem_union; exact Ga|]. eapply leq_trans; [exact T|]. apply seteq_leq, nmem_union. exact Gb.
+      - destruct a; try discriminate Ua.
+        destruct (norm_props b Gb Ub) as [Nb [Gn [Un [Ln [Dn On]]]]]. symmetry.
+        apply (step_MU (norm b) ts Gn Un Ln Ga ltac:(lia) Da) with (f := f') (f' := f); [|apply On; exact O2 | exact O1].
+        rewrite <- Nb. eapply leq_trans; [apply leq_sym; exact T|]. apply seteq_leq, nmem_union. exact Ga.
+      - destruct b; try discriminate Ub.
+        destruct (norm_props a Ga Ua) as [Na [Gn [Un [Ln [Dn On]]]]].
+        apply (step_MU (norm a) ts Gn Un Ln Gb ltac:(lia) Db) with (f := f) (f' := f'); [|apply On; exact O1 | exact O2].
+        rewrite <- Na. eapply leq_trans; [exact T|]. apply seteq_leq, nmem_union. exact Gb.
+      - destruct (norm_props a Ga Ua) as [Na [Gn [Un [Ln [Dn On]]]]].
+        destruct (norm_props b Gb Ub) as [Nb [Gn' [Un' [Ln' [Dn' On']]]]].
+        rewrite Na, Nb in T. apply leq_single in T.
+        apply (step_MM (norm a) (norm b) Gn Gn' ltac:(lia) ltac:(lia) T f f' u u' (On _ _ O1) (On' _ _ O2)).
+    Qed.
+  End Step.
+
+  Theorem P3_all : forall d, P3 d.
+  Proof.
+    induction d as [|d IH]; [intros a b Da; lia | apply P3_step; exact IH].
+  Qed.
+
+  (* statement (d) *)
+  Theorem optimize_cong_thm : forall f f' a b u u',
+    RF1 a = true -> S a = true -> RF1 b = true -> S b = true -> frel a b ->
+    optimize f a = Some u -> optimize f' b = Some u' -> canon u = canon u'.
+  Proof.
+    intros f f' a b u u' R1 S1 R2 S2 FR O1 O2.
+    apply (field_cong (Datatypes.S (Nat.max (depth a) (depth b))) (P3_all _) a b R1 S1 R2 S2 ltac:(lia) ltac:(lia) FR f f' u u' O1 O2).
+  Qed.
+End Ind.
 
 (* ------------------------------------------------------------------ *)
 (* E.2 the front end produces good field sets                           *)
@@ -651,6 +1059,31 @@ Section Front.
   End FromCongruence.
 End Front.
 
+(* ------------------------------------------------------------------ *)
+(* E.4 C07, unconditionally: no side condition on registry / replaces / accepts / key_matches / dict_fields / fuel *)
+Theorem generate_perm_dup : forall registry replaces accepts n_regex key_matches dict_fields fuel fuel' s1 s2 f1 f2,
+  (forall x, In x s1 <-> In x s2) ->
+  Forall (fun s => wf_json (JObj s) = true) s1 ->
+  generate registry replaces accepts n_regex key_matches dict_fields fuel s1 = Some f1 ->
+  generate registry replaces accepts n_regex key_matches dict_fields fuel' s2 = Some f2 ->
+  sem_eqb (TObj f1) (TObj f2) = true.
+Proof.
+  intros registry replaces accepts n_regex key_matches dict_fields fuel fuel' s1 s2 f1 f2 Hs Hw G1 G2.
+  apply (generate_perm_dup_cong registry replaces accepts n_regex key_matches dict_fields
+           (optimize_cong_thm registry replaces N.eqb) fuel fuel' s1 s2 f1 f2 Hs Hw G1 G2).
+Qed.
+(* permutations and duplications are special cases *)
+Corollary generate_perm : forall registry replaces accepts n_regex key_matches dict_fields fuel fuel' s1 s2 f1 f2,
+  Permutation s1 s2 ->
+  Forall (fun s => wf_json (JObj s) = true) s1 ->
+  generate registry replaces accepts n_regex key_matches dict_fields fuel s1 = Some f1 ->
+  generate registry replaces accepts n_regex key_matches dict_fields fuel' s2 = Some f2 ->
+  sem_eqb (TObj f1) (TObj f2) = true.
+Proof.
+  intros registry replaces accepts n_regex key_matches dict_fields fuel fuel' s1 s2 f1 f2 P.
+  apply generate_perm_dup. intros x. split; [apply Permutation_in; exact P | apply Permutation_in, Permutation_sym; exact P].
+Qed.
+
 (* sanity tests of the statement (vm_compute): swap of the first sets, a duplicated sample, a key missing from the
    first sample only, literals, a nested object inside a list *)
 Definition tk (n : N) : str := [n].
@@ -681,30 +1114,20 @@ Print Assumptions regroup_lists_teq.
 Print Assumptions regroup_objs_rel.
 Print Assumptions frontend_rel.
 Print Assumptions generate_perm_dup_cong.
+Print Assumptions P3_all.
+Print Assumptions optimize_cong_thm.
+Print Assumptions generate_perm_dup.
+Print Assumptions generate_perm.
 
-(* NOT PROVED: statement (d) in full, i.e. the Section hypothesis optimize_cong of generate_perm_dup_cong
-
-     forall f f' a b u u', RF1 a = true -> S a = true -> RF1 b = true -> S b = true -> frel a b ->
-       optimize registry replaces N.eqb f a = Some u -> optimize registry replaces N.eqb f' b = Some u' -> canon u = canon u'
-
-   and therefore the unconditional generate_perm_dup.  No counterexample was found to any statement.
-   What is proved towards (d):
-     - finish_ceq: the tail of _optimize_union gives canon-equal results on lists of optimised members that have the
-       same canon-images as sets (flat, canon-injective, at most one Any, same length);
-     - regroup_cong: the union step — two equivalent raw unions (leq X Y) optimise to canon-equal results as soon as
-       their three rebuilt members (TObj (merge_field_sets (objs_of _)), TList (dunion (lists_of _)),
-       TDict (dunion (dicts_of _))) do;  str_result_same (string pseudo-types enter as a set), oth_of_seteq,
-       regroup_len;
-     - regroup_lists_teq / regroup_dicts_teq / regroup_objs_rel: those rebuilt members are again equivalent
-       (teq / orelf), so the hypotheses of regroup_cong are instances of (d) on strictly smaller terms;
-     - the object step and the Optional step are the body of generate_perm_dup_cong (canon_obj_ext, opt_fields_lookup).
-   What is missing is the induction that ties these steps together:
-     (1) a measure: fuel does not work directly because the two sides consume different amounts of fuel for
-         equivalent terms (a member m against the one-member union TUnion [m], TLit true [] against TStr);
-         the depth of the left term (atoms 0, TList/TDict/TObj +1, TUnion/TOpt +0) works, with the lemmas
-         depth (mk_union ts) <= max depth ts and depth of the fields of merge_field_sets <= max depth of the inputs;
-     (2) the mixed cases member-against-union of teq a b (nmem a = [m], b = TUnion Y with every member of Y equivalent
-         to m): Y is then homogeneous, regroup Y is the single rebuilt member and the comparison reduces to the
-         member-against-member case; four shapes (atom, list, mapping, object), on either side;
-     (3) the member-against-member case (meq_inv: equal / TList / TDict / TObj with orel), which needs
-         merge_field_sets [F] = F (NormalForm.merge_single) to pass from orel to orelf for raw objects. *)
+(* Everything announced is proved; nothing is left open.
+   Structure of (d) (optimize_cong_thm): P3 d := "optimize respects teq on raw terms (G = R /\ S) of depth < d on both
+   sides, for any two fuels"; P3_all by induction on d (depth: atoms 0, TList/TDict/TObj +1, TUnion/TOpt +0;
+   PermAux: dle_mk_union, depth_union1, depth_dunion, merge_depth).  P3_step splits on union/member on each side:
+     step_UU  regroup_cong, its three hypotheses discharged by step_obj (merged_facts, regroup_objs_rel) and
+              step_list / step_dict (dunion_facts, regroup_lists_teq / regroup_dicts_teq);
+     step_MU  a single member against a union: the union is homogeneous, regroup returns the single rebuilt member
+              (regroup_single_atomic, regroup_lists, regroup_dicts, regroup_objs; merge_single + merge_rel for objects);
+              the union-against-member case is the same lemma read backwards;
+     step_MM  meq_inv; members are first normalised by norm (TLit true [] counts as TStr, norm_props).
+   field_cong lifts P3 to fields (Optional flag), step_obj to objects; optimize_det: the result does not depend on
+   the fuel once optimize succeeds (NormalForm.optimize_mono). *)
